@@ -453,6 +453,12 @@ def walorder_design(ctx, cov, live=False):
     cov.setdefault("design_models", []).append(d)
     cov["states"] = cov.get("states", 0) + (r.distinct or 0)
     cov["transitions"] = cov.get("transitions", 0) + (r.generated or 0)
+    # ... and for any number of pages, LSNs and steps: the three guarantees are consequences of an inductive invariant of the
+    # unbounded next-state relation (TLAPS proof in WalOrderProof.tla, re-checked here)
+    ok, n, tail = vlib.run_tlapm(ctx, "WalOrderProof")
+    if not ok:
+        raise vlib.Undecided("WalOrderProof: the proof system did not prove every obligation (model-level problem)\n" + "\n".join(tail))
+    cov["design_models"].append(dict(module="WalOrderProof", tool="tlapm", obligations_proved=n, theorem="Spec => [](WriteAhead /\\ HeaderCovers /\\ NoOrphanStamp)"))
     if live:
         r = vlib.run_tlc(ctx, "WalOrderLive", "WalOrderLive.cfg", workers=8, timeout=1500, tag="live")
         vlib.tlc_must_ok(ctx, r, "WalOrderLive")
